@@ -66,6 +66,9 @@ func runC10(p *core.Program, r *core.Report) {
 	for _, f := range all {
 		r.Functions[p.FuncName(f)] = true
 	}
+	stateInventory(c, "btree", "BTree", []string{"root", "n", "height"}, all)
+	stateInventory(c, "btree", "node", []string{"children", "m"}, all)
+	stateInventory(c, "btree", "entry", []string{"key", "value", "next", "isRemoved"}, all)
 	equalFn, lessFn := p.Func("gogu.Equal"), p.Func("gogu.Less")
 	if equalFn == nil || lessFn == nil {
 		r.Fatal("unresolved-anchor: gogu.Equal / gogu.Less")
